@@ -5,9 +5,21 @@
 (* the ids taken on an accepted path in the variable kf.  In KF mode a deviation   *)
 (* whose guard holds REPLACES the contract action for that event; every answer the *)
 (* deviation does not mention is still judged by the contract.                     *)
-EXTENDS BlobStore, TLC
+EXTENDS BlobStore, TLC, Integers
 
-KnownIds == {"C03-KF3", "C03-KF5", "C03-KF7", "C03-KF8"}
+(* bookkeeping of the trace specification, used by deviation guards only: the record most recently *)
+(* stored under each id (kept after the record is removed), so that "returns the REMOVED record"    *)
+(* can be stated exactly.  Updated from the logged events by LastdNext.                            *)
+VARIABLE lastd
+LastdNext(e) ==
+    lastd' = IF e.op \in {"put", "put_key"} /\ e.ok THEN Ext(lastd, e.id, e.d)
+             ELSE IF e.op \in {"put_batch", "put_batch_keys"} /\ e.ok /\ Len(e.ids) = Len(e.ds)
+                  THEN [x \in DOMAIN lastd \cup RangeOf(e.ids) |-> IF x \in RangeOf(e.ids) THEN e.ds[PosOf(e.ids, x)] ELSE lastd[x]]
+             ELSE IF e.op \in {"build", "build_keyed"} /\ e.ok THEN [i \in 0..(Len(e.ds) - 1) |-> e.ds[i + 1]]
+             ELSE IF e.op = "build_at" /\ e.ok /\ Len(e.ids) = Len(e.ds) THEN [x \in RangeOf(e.ids) |-> e.ds[PosOf(e.ids, x)]]
+             ELSE lastd
+
+KnownIds == {"C03-KF3", "C03-KF5", "C03-KF7", "C03-KF9", "C03-KF10"}
 
 (* the probe event with replaceable judgements for get / size / len answers *)
 ProbeWith(ids, g, c, s, n, G(_, _, _), S(_, _, _), L(_)) ==
@@ -101,11 +113,14 @@ KF4(e, subj) ==
 (* C03-KF5: NestLoudsTrieBlobStore::remove(id) deletes the KEY of the record from the trie    *)
 (* even when a newer record has since been stored under the same key: the newer record stays  *)
 (* live and readable by id, but get_by_key / contains_key / get_by_prefix no longer find it.   *)
+(* The remove event of a keyed run carries the key the harness had supplied for that id and     *)
+(* contains_key(key) observed right after the call; the deviation needs the key to be gone.     *)
 G5(e, subj) == /\ subj.fam = "triekey" /\ subj.variant /= "memory"     \* (LOUDS index: see KF7)
                /\ e.op = "remove" /\ e.ok
                /\ IsLive(e.id) /\ e.id \in DOMAIN keyof
                /\ keyof[e.id] \in DOMAIN bykey /\ bykey[keyof[e.id]] /= e.id
                /\ IsLive(bykey[keyof[e.id]])
+               /\ e.k = keyof[e.id] /\ ~e.key_after        \* observed right after the call: the key is gone
 KF5(e, subj) == /\ G5(e, subj)
                 /\ live' = Drop(live, e.id)
                 /\ bykey' = Drop(bykey, keyof[e.id])
@@ -116,11 +131,13 @@ KF5(e, subj) == /\ G5(e, subj)
 (* without removing the key, and the store keeps the node -> blob mapping and the blob bytes:  *)
 (* after remove(id) the record is absent by id, but get_by_key of its key still returns it and  *)
 (* get_by_prefix still lists it.  Entries of keys whose latest record is live are still judged. *)
-Stale(k) == k \in DOMAIN bykey /\ ~IsLive(bykey[k])
+(* Only the exact bytes of the removed record (lastd) are admitted for a stale key.               *)
+Stale(k) == k \in DOMAIN bykey /\ ~IsLive(bykey[k]) /\ bykey[k] \in DOMAIN lastd
 G7(e, subj) ==
     /\ subj.fam = "triekey" /\ subj.variant = "memory"
-    /\ \/ e.op = "get_key" /\ e.ok /\ Stale(e.k) /\ ~GetByKeyOk(e.k, e.ok, e.d)
+    /\ \/ e.op = "get_key" /\ e.ok /\ Stale(e.k) /\ ~GetByKeyOk(e.k, e.ok, e.d) /\ e.d = lastd[bykey[e.k]]
        \/ e.op = "get_prefix" /\ e.ok /\ \E i \in 1..Len(e.r) : Stale(e.r[i].k) /\ IsPrefix(e.p, e.r[i].k)
+       \/ e.op = "keys" /\ e.ok /\ \E i \in 1..Len(e.r) : Stale(e.r[i]) /\ IsPrefix(e.p, e.r[i])
 KF7(e, subj) ==
     /\ G7(e, subj)
     /\ \/ e.op = "get_key" /\ Same
@@ -129,7 +146,13 @@ KF7(e, subj) ==
                 /\ Len(e.r) = Cardinality(keys)
                 /\ PrefixSet(e.p) \subseteq keys
                 /\ \A k \in keys \ PrefixSet(e.p) : Stale(k) /\ IsPrefix(e.p, k)
-                /\ \A i \in 1..Len(e.r) : e.r[i].k \in PrefixSet(e.p) => e.r[i].d = live[bykey[e.r[i].k]]
+                /\ \A i \in 1..Len(e.r) : IF e.r[i].k \in PrefixSet(e.p) THEN e.r[i].d = live[bykey[e.r[i].k]]
+                                                                          ELSE e.r[i].d = lastd[bykey[e.r[i].k]]
+          /\ Same
+       \/ /\ e.op = "keys"
+          /\ Len(e.r) = Cardinality(RangeOf(e.r))
+          /\ PrefixSet(e.p) \subseteq RangeOf(e.r)
+          /\ \A k \in RangeOf(e.r) \ PrefixSet(e.p) : Stale(k) /\ IsPrefix(e.p, k)
           /\ Same
 
 (* ---------------------------------------------------------------------------------------- *)
@@ -154,6 +177,34 @@ KF8(e, subj) ==
        \/ e.op = "probe" /\ ProbeWith(e.ids, e.get, e.contains, e.size, e.len, Get8, SizeOk, LenOk)
        \/ e.op = "get_batch" /\ GetBatch8(e.ids, e.ok, e.r) /\ Same
 
+(* ---------------------------------------------------------------------------------------- *)
+(* C03-KF9: NestLoudsTrieBlobStore::put_batch_with_keys is a loop of put_with_key()? : when an  *)
+(* entry in the middle is refused (e.g. a key the trie cannot hold) the call returns Err, yet   *)
+(* the entries before it stay stored -- under ids the caller never receives -- and become the   *)
+(* latest record of their keys.  The store numbers its records consecutively; len() right after *)
+(* the call (logged) shows how many entries stayed.                                             *)
+Stayed9(e) == e.len_after - Cardinality(Live)
+G9(e, subj) == /\ subj.fam = "triekey"
+               /\ e.op = "put_batch_keys" /\ ~e.ok
+               /\ Stayed9(e) >= 1 /\ Stayed9(e) < Len(e.ds)
+KF9(e, subj) ==
+    /\ G9(e, subj)
+    /\ LET k == Stayed9(e)
+           b == IF issued = {} THEN 0 ELSE MaxOf(issued) + 1
+       IN PutBatchWithKeys(SubSeq(e.ks, 1, k), SubSeq(e.ds, 1, k), [i \in 1..k |-> b + i - 1])
+
+(* ---------------------------------------------------------------------------------------- *)
+(* C03-KF10: MemoryBlobStore::from_data(map) sets the next id to max(id) + 1; when the map holds *)
+(* a record under u32::MAX (logged as -1) the counter wraps to 0 and put() hands out -- and      *)
+(* overwrites -- the id of a record that is still live (ids "never reused for a different live   *)
+(* record").  Only that overwrite is admitted: the new record is then the one stored under the id. *)
+G10(e, subj) == /\ subj.fam = "mem" /\ subj.variant = "from_data_top"
+                /\ (0 - 1) \in issued
+                /\ e.op = "put" /\ e.ok /\ IsLive(e.id)
+KF10(e, subj) == /\ G10(e, subj)
+                 /\ live' = Ext(live, e.id, e.d)
+                 /\ UNCHANGED <<issued, keyof, bykey>>
+
 (* guard (state predicate) and action of each deviation *)
 DevApplies(id, e, subj) ==
     \/ id = "C03-KF1" /\ G1(e, subj)
@@ -163,6 +214,8 @@ DevApplies(id, e, subj) ==
     \/ id = "C03-KF5" /\ G5(e, subj)
     \/ id = "C03-KF7" /\ G7(e, subj)
     \/ id = "C03-KF8" /\ G8(e, subj)
+    \/ id = "C03-KF9" /\ G9(e, subj)
+    \/ id = "C03-KF10" /\ G10(e, subj)
 KnownDeviation(id, e, subj) ==
     \/ id = "C03-KF1" /\ KF1(e, subj)
     \/ id = "C03-KF2" /\ KF2(e, subj)
@@ -171,4 +224,6 @@ KnownDeviation(id, e, subj) ==
     \/ id = "C03-KF5" /\ KF5(e, subj)
     \/ id = "C03-KF7" /\ KF7(e, subj)
     \/ id = "C03-KF8" /\ KF8(e, subj)
+    \/ id = "C03-KF9" /\ KF9(e, subj)
+    \/ id = "C03-KF10" /\ KF10(e, subj)
 =============================================================================
